@@ -87,8 +87,13 @@ const nilMessageName = "@nil"
 var RefFactory func(address, path string) (any, error)
 
 func QueryMessageDesc(message any) *MessageDesc {
-	tof := reflect.TypeOf(message).Elem()
-	desc, ok := internalMessageTypeOfDesc[tof]
+	tof := reflect.TypeOf(message)
+	// 内置消息均以指针类型登记。nil 与非指针的值（例如 string、按值传递的结构体）不是内置消息：
+	// 视为外部消息交由用户 Codec 处理（未配置 Codec 时编码失败、转为死信），不可对其调用 Elem（会 panic）。
+	if tof == nil || tof.Kind() != reflect.Pointer {
+		return outsideMessageDesc
+	}
+	desc, ok := internalMessageTypeOfDesc[tof.Elem()]
 	if ok {
 		return desc
 	}
